@@ -47,13 +47,26 @@ def execute(prop, tier):
     units_run = 0
     harness_reports = []
 
-    # ---- Engine K -------------------------------------------------------
-    for gi, g in enumerate(plan.get("kani", [])):
+    # ---- Engine K (+ Engine S concurrently) -----------------------------
+    # All harness groups (one cargo-kani invocation per build configuration) and the Engine S
+    # kernel pool run concurrently: the machine has 16 cores and most harnesses are single CBMC
+    # processes of 1-3 GB.
+    import concurrent.futures as cf
+    kgroups = list(plan.get("kani", []))
+    smt = plan.get("smt")
+    pool = cf.ThreadPoolExecutor(max(1, len(kgroups) + (1 if smt else 0)))
+    futs = []
+    for gi, g in enumerate(kgroups):
         names = [h["name"] for h in g.harnesses]
         tag = "%s-%s-%d" % (prop, tier, gi)
         log("[%s] kani group %s (%s): %d harnesses, features=%s" % (prop, gi, g.label, len(names), K.FEATURE_SETS[g.fs]))
-        results, info = K.run_group(g.fs, names, tag, timeout_s=g.timeout, jobs=g.jobs,
-                                    mem_gb=g.mem_gb, stubbing=g.stubbing)
+        futs.append(pool.submit(K.run_group, g.fs, names, tag, g.timeout, g.jobs, g.mem_gb, g.stubbing))
+    sfut = None
+    if smt:
+        from . import smtrun
+        sfut = pool.submit(smtrun.run_obligations, prop, tier, smt)
+    for gi, g in enumerate(kgroups):
+        results, info = futs[gi].result()
         if info.get("compile_error"):
             inconclusive.append("group %s: build failed: %s" % (g.label, "; ".join(info.get("errors", []))[:500]))
         for h in g.harnesses:
@@ -106,10 +119,8 @@ def execute(prop, tier):
     # ---- Engine S -------------------------------------------------------
     smt_reports = []
     traces_validated = 0
-    smt = plan.get("smt")
     if smt:
-        from . import smtrun
-        sres = smtrun.run_obligations(prop, tier, smt)
+        sres = sfut.result()
         traces_validated = sres["traces_validated"]
         for o in sres["obligations"]:
             units_run += 1
